@@ -4455,6 +4455,7 @@ def _match__inside_list_quantifier(
     q_max = pat.max
     matches_ins_idx = 0x7fffffffffffffff
     tgt_idxs = []  # start index in target of each successful quantifier pattern match, for stepping back
+    static_tags = None  # not added yet
     count = 0
 
     if q_max is None:
@@ -4488,7 +4489,7 @@ def _match__inside_list_quantifier(
             count += 1
 
         else:
-            if static_tags := pat.static_tags:
+            if static_tags is None and (static_tags := pat.static_tags):  # only once, when minimum is reached, greedy which reaches a finite maximum gets here a second time
                 tagss.append(static_tags)
 
                 if not pat_tag:  # if no pat_tag then inserting matches directly into tagss and need to insert them before the static_tags dict
